@@ -95,6 +95,6 @@ func c15OverlapHarness(np, maxLen int) {
 	}
 }
 
-func VerifC15Overlap2() { c15OverlapHarness(2, 2) }
-func VerifC15Overlap3() { c15OverlapHarness(3, 2) }
+func VerifC15Overlap2()     { c15OverlapHarness(2, 2) }
+func VerifC15Overlap3()     { c15OverlapHarness(3, 2) }
 func VerifC15Overlap2Deep() { c15OverlapHarness(2, 3) }
